@@ -426,6 +426,18 @@ def mk_route(ctx):
             errs.append('a node whose children are all present is not inserted into dag and roots')
         if not res[True]['roots.remove'][0]:
             errs.append('children of an inserted node are not demoted from roots')
+        else:
+            # .. every child, on every path: the demotion is reached in each iteration of its loop, and the loop (or the
+            # `retain`) on every path of a node whose children are all present
+            from .loops import loop_of_block
+            rcT = Reach(facts, body, Evaluator(facts, bool_atom=atom, assumption={'in_dag': False, 'in_orphans': False, 'seen': True}))
+            for sb in sites['roots.remove']:
+                lp_ = loop_of_block(it, sb)
+                if lp_ is not None and param_path(lp_.source()[0]) and param_path(lp_.source()[0])[0] == 2:
+                    if not lp_.must(rcT, [sb]) or not rcT.must_pass([lp_.head]):
+                        errs.append('a child of the inserted node can stay a root (the demotion is not reached for every child on every path)')
+                elif lp_ is None and not rcT.must_pass([sb]):
+                    errs.append('the demotion of the children is skipped on some path of an inserted node')
         if res[True]['orphans.insert'][0]:
             errs.append('a node whose children are all present is stored as an orphan')
         if not res[False]['orphans.insert'][1]:
@@ -1166,7 +1178,7 @@ def list_apply(ctx):
             if bb not in rc.reachable:
                 continue
             info = cinfo(c.cid)
-            effs = [e for e in call_effects(facts, it, bb) if e.param == 1 and e.path[:1] == ('seq',)]
+            effs = [e for e in call_effects(facts, it, bb, must_only=True) if e.param == 1 and e.path[:1] == ('seq',)]
             if not effs:
                 continue
             ids = [a for a in c.args[1:] if param_path(a.val) and param_path(a.val)[0] == 2 and param_path(a.val)[1][-1:] == (want,)]
